@@ -823,15 +823,22 @@ def Provides(*interfaces):  # pylint:disable=function-redefined
       Instance declarations are shared among instances that have the same
       declaration. The declarations are cached in a weak value dictionary.
     """
-    spec = InstanceDeclarations.get(interfaces)
+    key = interfaces
+    if len(interfaces) > 1:
+        # Interfaces the class implements at this moment are stripped
+        # from the declaration as redundant. Such a declaration silently
+        # depends on the class's declarations staying as they are, so
+        # it may only be shared with requests that strip the same way.
+        kept = Declaration._add_interfaces_to_cls(
+            interfaces[1:], interfaces[0]
+        )
+        if len(kept) != len(interfaces):
+            key = (interfaces, kept)
+
+    spec = InstanceDeclarations.get(key)
     if spec is None:
         spec = ProvidesClass(*interfaces)
-        # Interfaces the class implemented at this moment were stripped
-        # as redundant. Such a declaration silently depends on the
-        # class's declarations staying as they are, so it must not be
-        # handed out again for the same arguments later on.
-        if len(spec.__bases__) == len(interfaces):
-            InstanceDeclarations[interfaces] = spec
+        InstanceDeclarations[key] = spec
 
     return spec
 
